@@ -43,8 +43,10 @@ ById(ids, s) == LET pos == SortSeq([j \in 1..N |-> j], LAMBDA x, y : ids[x] < id
                 IN TLCEval([r \in Rows |-> s[pos[r]]])
 LabelsUnder(rank) == LET qm == QMap(rank, T.tgt, N) IN TLCEval([r \in Rows |-> LabelOf(T.tgt[r], qm[rank[r]], TrainFdr)])
 NPos(L) == Cardinality({r \in Rows : L[r] = 1})
-Top == 1 + CHOOSE m \in SeqSet(T.dir) : \A x \in SeqSet(T.dir) : x <= m
-Rev(rank) == [r \in Rows |-> Top - rank[r]]
+\* the other orientation of a feature ("lower is better"), as ranks
+Rev(rank) == LET V == {rank[r] : r \in Rows}
+                 top == CHOOSE m \in V : \A x \in V : x <= m
+             IN TLCEval([r \in Rows |-> top - rank[r]])
 Pairs(ids, y2) == {<<ids[j], y2[j]>> : j \in 1..Len(ids)}
 DeclFed(L) == {<<r, 2>> : r \in {r \in Rows : L[r] = 1}} \cup {<<r, 0>> : r \in {r \in Rows : L[r] = -1}}
 Within(x, y) == x - y <= T.eps /\ y - x <= T.eps
